@@ -253,6 +253,8 @@ def frame_of(stderr):
 def run_check(prop, tier, seed, jobs, replay=None):
     t0 = time.time()
     runs = CHECKS[prop]
+    if os.environ.get('VERIF_VARIANT'):
+        runs = [dict(r, variant=os.environ['VERIF_VARIANT']) for r in runs]
     scratch_root = tempfile.mkdtemp(prefix='jlsverif-', dir='/dev/shm')
     viol = {}      # (prop,key) -> first record
     violn = {}
@@ -359,6 +361,8 @@ def run_check(prop, tier, seed, jobs, replay=None):
             seen_known.append(k)
         else:
             new.append(k)
+    if replay is None:
+        shutil.rmtree(os.path.join(EVID, 'replay', prop), ignore_errors=True)
     os.makedirs(os.path.join(EVID, 'replay', prop), exist_ok=True)
     for k in seen_known:
         print('KNOWN-FINDING: property=%s %s [%s] (seen %d times)' % (prop, open_keys[k]['what'], k[1], violn[k]))
